@@ -85,7 +85,23 @@ def statements_pool():
         lambda id, dep: Assignment(a, p.Sum((p.Subscript(b_, i), p.Lookup(c, "re"))), id=id, depends_on=dep),
         lambda id, dep: ConditionalAssignment(lhs=b_, rhs=p.Subscript(a, (i, p.Variable("a_0"))), condition=p.Comparison(p.Subscript(c, i), ">", p.Lookup(p.Variable("i_0"), "lo")), id=id, depends_on=dep),
         lambda id, dep: Assignment(p.Variable("a_0"), p.Product((a, p.Variable("c_0"))), id=id, depends_on=dep),
+        # attribute names that are spelled like identifiers of the streams: an attribute name is not an identifier
+        lambda id, dep: Assignment(b_, p.Sum((p.Lookup(c, "a"), a, p.Lookup(p.Variable("f"), "i"))), id=id, depends_on=dep),
+        lambda id, dep: ConditionalAssignment(lhs=i, rhs=p.Lookup(a, "b"), condition=p.Comparison(p.Lookup(b_, "a"), "<", a), id=id, depends_on=dep),
     ]
+
+
+def rename_tree(e, ren):
+    """Independent renaming of the variables of e (attribute names, function names of calls included as variables, constants untouched)."""
+    import dataclasses
+    import pymbolic.primitives as p
+    if isinstance(e, p.Variable):
+        return p.Variable(ren.get(e.name, e.name))
+    if isinstance(e, p.Expression) and dataclasses.is_dataclass(e):
+        return type(e)(*[rename_tree(getattr(e, f.name), ren) if f.name not in ("name", "operator") else getattr(e, f.name) for f in dataclasses.fields(e)])
+    if isinstance(e, tuple):
+        return tuple(rename_tree(c, ren) for c in e)
+    return e
 
 
 def streams(max_len, ids):
@@ -209,6 +225,9 @@ def bounded(tier, seed, procs):
                     for s_old, s_new in zip(B, newB):
                         if (ref_reads(s_new) | ref_writes(s_new)) != {ren.get(n, n) for n in ref_reads(s_old) | ref_writes(s_old)}:
                             why = f"inconsistent renaming in {s_old} -> {s_new}"
+                        for part in ("lhs", "rhs", "condition"):
+                            if hasattr(s_old, part) and rename_tree(getattr(s_old, part), ren) != getattr(s_new, part, None):
+                                why = f"{part} of {s_old} became {getattr(s_new, part, None)!r}, the independent renaming gives {rename_tree(getattr(s_old, part), ren)!r}"
                     idsNew = set().union(*[ref_reads(s) | ref_writes(s) for s in newB]) if newB else set()
                     if idsA & idsNew & want_keys:
                         why = f"streams still share {sorted(idsA & idsNew & want_keys)}"
